@@ -76,7 +76,9 @@ try:
         env = dict(os.environ, PYTHONPATH=WORK)
         rc, out = run(f"cd {WORK} && timeout 300 /venv/bin/python -m pytest -q -x -p no:cacheprovider --timeout=120 2>&1 | tail -1", env=env)
         tests_pass = " failed" not in out and "error" not in out.lower() and "passed" in out
+        base_lines = set(base_code.splitlines())
         rec = {"file": rel, "mutant": "%s@%d" % (kind, getattr(node, "lineno", 0)), "line": src.splitlines()[getattr(node, "lineno", 1) - 1].strip()[:120],
+               "text": " ; ".join(l.strip() for l in code.splitlines() if l not in base_lines)[:200],
                "tests_pass": tests_pass, "checks": {}}
         if tests_pass:
             for p in props:
